@@ -296,6 +296,39 @@ def run(tier):
                             failures.append(dict(kind='program', summary=f'{what}[{k!r}] = {got!r}, the example stored under that key is {want}', config=dict(stage=st, n=n, seed=seed)))
                     except Exception as e:
                         failures.append(dict(kind='program', summary=f'{what}[{k!r}] raised {type(e).__name__}: {e}'[:300], config=dict(stage=st, n=n, seed=seed)))
+        # (1') operations that FAIL or only look (a refused items() over key-less data, the items() probe inside new(ds) / cache(lazy=False),
+        #      len, keys, repr, indexable, ordered) do not consume random numbers: the seeded orders afterwards are those of a twin
+        #      that was left alone
+        for _ in range(200 if big else 40):
+            n, seed = r.randint(2, 7), r.randint(0, 10 ** 6)
+            keyed = r.random() < 0.4
+            kind = r.choice(['reshuffle', 'reshuffle', 'local', 'reshuffle_local'])
+
+            def mk():
+                d = ld.new({f'k{i}': i for i in range(n)} if keyed else list(range(n)))
+                g = np.random.RandomState(seed)
+                if kind == 'reshuffle': return d.shuffle(True, rng=g)
+                if kind == 'local': return d.shuffle(True, rng=g, buffer_size=3)
+                return d.shuffle(True, rng=g).shuffle(True, rng=np.random.RandomState(seed + 1), buffer_size=2)
+            a, b = mk(), mk()
+            probe = r.choice(['items', 'len', 'keys', 'repr', 'flags', 'getbad'])
+            try:
+                if probe == 'items':
+                    if keyed:
+                        continue
+                    list(b.items())
+                elif probe == 'len': len(b)
+                elif probe == 'keys': b.keys()
+                elif probe == 'repr': repr(b); str(b)
+                elif probe == 'flags': b.indexable; b.ordered
+                else: b['nope']
+            except Exception:
+                pass
+            ea = [[int(x) for x in a] for _e in range(2)]
+            eb = [[int(x) for x in b] for _e in range(2)]
+            if ea != eb:
+                failures.append(dict(kind='program', summary=f'{kind} shuffle of range({n}) (seed {seed}, {"dict" if keyed else "list"}): after a {probe} probe the epochs are {eb}, an untouched twin gives {ea}',
+                                     config=dict(n=n, seed=seed, kind=kind, probe=probe, keyed=keyed)))
         # (5) copy() preserves every configuration parameter of every stage
         for msg in copy_params(ld):
             failures.append(dict(kind='program', summary=msg, config={}))
